@@ -138,6 +138,32 @@ def find_counterexample(pid, failure, root, build_dir, tier):
     return None
 
 
+def standin_search(pid, root, tier):
+    """search every oracle of the property on the real code (used only when the verifier is undecided)"""
+    skip = ','.join(known_classes(root, pid))
+    budget = '100000' if tier == 'quick' else '2000000'
+    seed = os.environ.get('VERIF_SEED', '0')
+    tried = []
+    for o in ORACLES.get(pid, {}).get('*', []):
+        exe = build(root, crate_for(o))
+        if not exe:
+            tried.append((o, 'driver build failed'))
+            continue
+        try:
+            v = _run(exe, ['search', o, seed, budget, skip], timeout=600)
+        except subprocess.TimeoutExpired:
+            tried.append((o, 'timeout'))
+            continue
+        tried.append((o, v.get('tried')))
+        if v.get('found'):
+            c = v['case']
+            return {'counterexample': {'oracle': o, 'args': c.get('args'), 'observed': c.get('observed'), 'expected': c.get('expected'),
+                                       'what': c.get('what'), 'class': c.get('class'),
+                                       'source': f'native search over a boundary grid and pseudo-random inputs (seed {seed}) on the real code (release profile)'},
+                    'replayed_on_real_code': True, 'searched': tried}
+    return {'counterexample': None, 'searched': tried}
+
+
 def replay_known(k, root):
     """True: still reproduces; False: no longer reproduces; None: could not run."""
     exe = build(root, crate_for(k['oracle']))
